@@ -1,6 +1,7 @@
 package sim
 
 import (
+	"bytes"
 	"context"
 	"crypto/sha256"
 	"encoding/binary"
@@ -294,12 +295,36 @@ func (c *Chain) DefaultVotes(h int64, absent map[int]bool) []Vote {
 }
 
 // Prepare calls the real PrepareProposal (only meaningful when b.Proposer is this node's validator).
+// Prepare calls the real PrepareProposal. The application gives its two engine calls 1.2 seconds of WALL-CLOCK time; on an
+// overloaded machine the scripted engine (a well-behaved one, no fault installed) can miss that, and the application falls
+// back to a proposal without an execution block - which says nothing about the code. Such an attempt (it took a second or
+// more, no fault was scripted) is repeated; a failure that comes back quickly, or under a scripted fault, is returned as is.
 func (c *Chain) Prepare(b *Block, mempoolTxs [][]byte) (*abci.ResponsePrepareProposal, error) {
-	return c.App.PrepareProposal(&abci.RequestPrepareProposal{
-		MaxTxBytes: 20 * 1024 * 1024, Txs: mempoolTxs,
-		LocalLastCommit: abci.ExtendedCommitInfo{}, Misbehavior: b.Misbehavior,
-		Height: b.Height, Time: b.Time, ProposerAddress: c.KR.Vals[b.Proposer].Addr,
-	})
+	for try := 0; ; try++ {
+		t0 := time.Now()
+		pp, err := c.App.PrepareProposal(&abci.RequestPrepareProposal{
+			MaxTxBytes: 20 * 1024 * 1024, Txs: mempoolTxs,
+			LocalLastCommit: abci.ExtendedCommitInfo{}, Misbehavior: b.Misbehavior,
+			Height: b.Height, Time: b.Time, ProposerAddress: c.KR.Vals[b.Proposer].Addr,
+		})
+		if err != nil || try >= 8 || c.Eng.HasFault() || time.Since(t0) < time.Second || !sameTxs(pp.Txs, mempoolTxs) {
+			return pp, err
+		}
+		c.Eng.TakeLog() // the calls of the attempt that ran out of time
+	}
+}
+
+// sameTxs: the fallback proposal of the application is the list of mempool transactions it was given.
+func sameTxs(a, b [][]byte) bool {
+	if len(a) != len(b) {
+		return false
+	}
+	for i := range a {
+		if !bytes.Equal(a[i], b[i]) {
+			return false
+		}
+	}
+	return true
 }
 
 func (c *Chain) Process(b *Block) (*abci.ResponseProcessProposal, error) {
